@@ -143,8 +143,10 @@ def forget(mod):
 
 
 # ------------------------------------------------------------------ dynamic construction
-def build_dynamic(D):
-    """-> list of EClass in class order (the construction of harness/kimpl.py, plus lower/default)"""
+def build_dynamic(D, breadth=False):
+    """-> list of EClass in class order (the construction of harness/kimpl.py, plus lower/default);
+    breadth=True: every operation is first added to its class WITHOUT parameters (all classes), the parameters
+    are described afterwards, class by class (what a loader or an editor does)"""
     common.use_repo()
     from pyecore import ecore as E
     enums = {en['name']: E.EEnum(en['name'], literals=list(en['literals'])) for en in D.get('enums', [])}
@@ -175,11 +177,19 @@ def build_dynamic(D):
         for fd in c['features']:
             if fd.get('opposite'):
                 byname[(c['name'], fd['name'])].eOpposite = byname[tuple(fd['opposite'])]
+    later = []
     for c in D['classes']:
         for od in c['operations']:
-            classes[c['name']].eOperations.append(
-                E.EOperation(od['name'], params=[E.EParameter(p['name'], eType=E.ENativeType, required=p['required'])
-                                                 for p in od['params']]))
+            ps = [E.EParameter(p['name'], eType=E.ENativeType, required=p['required']) for p in od['params']]
+            if breadth:
+                op = E.EOperation(od['name'])
+                later.append((op, ps))
+            else:
+                op = E.EOperation(od['name'], params=ps)
+            classes[c['name']].eOperations.append(op)
+    for op, ps in later:
+        for prm in ps:
+            op.eParameters.append(prm)
     pkg = E.EPackage('p', nsURI='http://p', nsPrefix='p')
     pkg.eClassifiers.extend(order)
     pkg.eClassifiers.extend(enums.values())
@@ -560,6 +570,7 @@ def ask_module(model, m, intern):
 #   ['mro', ci] ['get', ci, n] ['set', ci, n, v] ['eget', ci, n] ['eset', ci, n, v] ['isset', ci, n] ['unset', ci, n]
 #   ['call', ci, python method name, number of positional arguments] ['state', ci] ['xload', ci]
 #   ['new', ci]: one more instance of the class is created (ok / exception class)
+#   ['sig', ci, python method name]: inspect.signature of the bound method as [name, required, kind]
 # values are plain JSON: 'x', 3, True, 1.5, None, ['a'], [1, 2]
 CLASH_TYPES = [('EString', 1), ('EInt', 1), ('EBoolean', 1), ('EDouble', 1), ('EString', -1), ('EInt', -1)]
 CLASH_DEFAULTS = {'EString': [None, 'dflt'], 'EInt': [None, 7], 'EBoolean': [None, True], 'EDouble': [None, 2.5]}
@@ -674,6 +685,7 @@ def behave_history(D, rng, xload=True):
             if rng.random() < 0.3:
                 hist += [['unset', ci, n], ['get', ci, n], ['isset', ci, n]]
         for pn in sorted(ops):
+            hist.append(['sig', ci, pn])
             for k in sorted({0, max(ops[pn]) + 1} | ops[pn]):
                 hist.append(['call', ci, pn, k])
         hist += [['state', ci], ['mro', ci]]
@@ -686,12 +698,14 @@ def behave_history(D, rng, xload=True):
 class Behaviour:
     """one rendering of D ('dynamic' | 'static-meta' | 'static-decorator') driven through a history"""
 
+    breadth = False
+
     def __init__(self, D, render):
         common.use_repo()
         from pyecore.notification import EObserver
         self.D, self.render, self.mod = D, render, None
         if render == 'dynamic':
-            self.eclasses = build_dynamic(D)
+            self.eclasses = build_dynamic(D, breadth=self.breadth)
             self.factories = list(self.eclasses)
             self.pkg = self.eclasses[0].ePackage
         else:
@@ -746,6 +760,10 @@ class Behaviour:
             return canon(delattr(o, st[2]))
         if k == 'call':
             return canon(getattr(o, st[2])(*['p'] * st[3]))
+        if k == 'sig':
+            import inspect
+            return [[n, prm.default is inspect.Parameter.empty, prm.kind.name]
+                    for n, prm in inspect.signature(getattr(o, st[2])).parameters.items()]
         if k == 'state':
             return self.state(o)
         if k == 'xload':
@@ -1035,3 +1053,137 @@ def rerender_trace(D1, D2, render):
             if mod is not None:
                 forget(mod)
     return json_able(obs)
+
+
+class BreadthBehaviour(Behaviour):
+    """the dynamic rendering is built breadth-first (operations first, their parameters afterwards)"""
+    breadth = True
+
+
+def gen_breadth_descr(rng):
+    """several classes (some related) declaring operations of the SAME names with different parameters: built
+    breadth-first, their generated stubs momentarily have the same source text"""
+    classes = []
+    names = rng.sample(['P', 'Q', 'R', 'S', 'T'], rng.randrange(2, 6))
+    for i, n in enumerate(names):
+        sup = [rng.choice(names[:i])] if i and rng.random() < 0.4 else []
+        c = _cls(classes, n, sup)
+        c['interface'] = False
+        if rng.random() < 0.4:
+            c['features'].append(_attr('label', 'EString', 1))
+    opnames = rng.sample(['scale', 'run', 'describe', 'match'], rng.randrange(1, 4))
+    for on in opnames:
+        owners = [c for c in classes if rng.random() < 0.7]
+        if len(owners) < 2:
+            owners = rng.sample(classes, 2)
+        for c in owners:
+            c['operations'].append(_op(rng, on))
+    return {'enums': [], 'classes': classes}
+
+
+# ------------------------------------------------------------------ values that carry an eClass without being instances
+# extra population steps:
+#   ['offer', oi, ref, kind, ci]  the value `kind` of class ci is assigned / appended to pop[oi].ref
+#   ['isinst', kind, ci, cj, 'handle'|'eclass']  isinstance(value, class handle / EClass of class cj)
+#   ['proxy', ci, cj, 'handle'|'eclass']  a holder whose `link` is an UNRESOLVED proxy (cross-document reference right
+#        after load) to an instance of ci: isinstance before the reference is followed, its name, isinstance after
+# kinds: 'instance' (control) 'handle' (what the rendering hands out as the class) 'pyclass' (the Python class)
+#        'eclass' (the EClass) 'namesake' (an instance of the class of that name in ANOTHER rendering of the same
+#        kind) 'resolved-proxy' (EProxy(wrapped=instance))
+VALUE_KINDS = ['instance', 'handle', 'pyclass', 'eclass', 'namesake', 'resolved-proxy']
+
+
+class Offers(Population):
+    def __init__(self, D, render):
+        super().__init__(D, render)
+        self.twin = None
+
+    def close(self):
+        super().close()
+        if self.twin is not None:
+            self.twin.close()
+
+    def value(self, kind, ci):
+        from pyecore.ecore import EProxy
+        if kind == 'instance':
+            return self.factories[ci]()
+        if kind == 'handle':
+            return self.factories[ci]
+        if kind == 'pyclass':
+            return self.eclasses[ci].python_class
+        if kind == 'eclass':
+            return self.eclasses[ci]
+        if kind == 'namesake':
+            if self.twin is None:
+                self.twin = Behaviour(self.D, self.render)
+            return self.twin.factories[ci]()
+        if kind == 'resolved-proxy':
+            return EProxy(wrapped=self.factories[ci]())
+        raise ValueError(kind)
+
+    def step(self, st):
+        k = st[0]
+        if k == 'offer':
+            parent, v = self.pop[st[1]], self.value(st[3], st[4])
+            if parent.eClass.findEStructuralFeature(st[2]).many:
+                getattr(parent, st[2]).append(v)
+                return len(getattr(parent, st[2]))
+            setattr(parent, st[2], v)
+            return getattr(parent, st[2]) is v
+        if k == 'isinst':
+            cls = self.factories[st[3]] if st[4] == 'handle' else self.eclasses[st[3]]
+            return bool(isinstance(self.value(st[1], st[2]), cls))
+        if k == 'proxy':
+            return self.proxy(st[1], st[2], st[3])
+        return super().step(st)
+
+    def proxy(self, ci, cj, how):
+        import os
+        import tempfile
+        from pyecore.resources import ResourceSet, URI
+        node = next(i for i, c in enumerate(self.D['classes']) if c['name'] == 'Node')
+        cls = self.factories[cj] if how == 'handle' else self.eclasses[cj]
+        with tempfile.TemporaryDirectory() as td:
+            rs = ResourceSet()
+            target, holder = self.factories[ci](), self.factories[node]()
+            target.name, holder.link = 'target', target
+            for o, f in ((target, 'target.xmi'), (holder, 'holder.xmi')):
+                rs.create_resource(URI(os.path.join(td, f))).append(o)
+            for r in list(rs.resources.values()):
+                r.save()
+            rs2 = ResourceSet()
+            rs2.metamodel_registry['http://p'] = self.pkg
+            loaded = rs2.get_resource(URI(os.path.join(td, 'holder.xmi'))).contents[0]
+            p = loaded.link
+            before = bool(isinstance(p, cls))
+            name = p.name                          # the reference is followed
+            return [type(p).__name__, before, name, bool(isinstance(p, cls))]
+
+
+def offers_history(D, rng):
+    concrete = [ci for ci, c in enumerate(D['classes']) if not c['abstract']]
+    nodes = [ci for ci in concrete if _has_feature(D, ci, 'kids')]
+    h, cls_of = [], []
+    for _ in range(rng.randrange(2, 5)):
+        cls_of.append(rng.choice(concrete))
+        h.append(['make', cls_of[-1]])
+    for _ in range(rng.randrange(6, 12)):
+        oi = rng.randrange(len(cls_of))
+        refs = [r for r in ('kids', 'kid', 'link', 'link', 'items') if _has_feature(D, cls_of[oi], r)]
+        kind = rng.choice(VALUE_KINDS)
+        if not refs:
+            continue
+        h.append(['offer', oi, rng.choice(refs), kind, rng.choice(concrete if kind in ('instance', 'namesake', 'resolved-proxy')
+                                                                 else range(len(D['classes'])))])
+        if rng.random() < 0.3:
+            h += [['econtents', oi], ['eallcontents', oi]]   # (no allInstances here: rejected values live until collected)
+    for _ in range(rng.randrange(6, 12)):
+        kind = rng.choice(VALUE_KINDS)
+        ci = rng.choice(concrete if kind in ('instance', 'namesake', 'resolved-proxy') else range(len(D['classes'])))
+        # mostly the very class of the value (and its super / sub types)
+        cj = ci if rng.random() < 0.6 else rng.randrange(len(D['classes']))
+        h.append(['isinst', kind, ci, cj, rng.choice(['handle', 'eclass'])])
+    for _ in range(rng.choice([1, 1, 2])):
+        ci = rng.choice(nodes)
+        h.append(['proxy', ci, ci if rng.random() < 0.7 else rng.choice(nodes), rng.choice(['handle', 'eclass'])])
+    return h
